@@ -13,8 +13,8 @@ import common as C  # noqa: E402
 import dates as D   # noqa: E402
 from parallel import driver_parallel  # noqa: E402
 
-GEN = ['DateK', 'DayCount']
-PROPS = ['FinVerif.Props.C15']
+GEN = ['DateK', 'Calendar', 'DateLogic', 'DayCount']
+PROPS = ['FinVerif.Props.C15', 'FinVerif.Props.C15b']
 DRIVERS = ['FinVerif.Driver.C15']
 SPEC_DRIVERS = ['FinVerif.Driver.C15Spec']
 
